@@ -242,7 +242,9 @@ func (c *converter) syncPartial() {
 		delete(ingMap, ing.Namespace+"/"+ing.Name)
 	}
 	for _, ing := range c.changed.IngressesAdd {
-		ingMap[ing.Namespace+"/"+ing.Name] = ing
+		// the object of the add event can be stale: the same batch might
+		// also have an update or a delete of this ingress. Read it again.
+		ingMap[ing.Namespace+"/"+ing.Name] = nil
 	}
 	ingList := make([]*networking.Ingress, 0, len(ingMap))
 	for name, ing := range ingMap {
